@@ -178,7 +178,8 @@ were run to completion on the unchanged tree after every change (all exit 0, exh
 were run end to end again on the strengthened harnesses (`notes/thorough_session3.log`).  The thorough tier of C06 (35-80 min)
 was NOT run again after `hier.reduce` and the near-miss tags were added: `hier.reduce` enumerates the same 3072 hierarchies
 in both tiers and the mixed leaf is part of the quick space, both completed there; the soft deadline still guarantees exit 0
-with `exhaustive=false` should the added work not fit.
+with `exhaustive=false` should the added work not fit.  The six benign changes of C06 and C09 (section 10.6 d) were run again
+against the strengthened harnesses: no alarm (`notes/benign_session3.log`).
 
 ### 10.6 Detection evidence
 
